@@ -18,7 +18,7 @@ Lemma dask_dict_sound_stmt :
   forall (apply : positive -> list sval -> sval) (g : tgraph) (ids : task -> positive) (d : dsk) (o : task)
          (order : list task) (rc : cache task sval) (sched : list positive) (dc : cache positive dval) (t : task),
     output_tasks g = [o] -> as_dask_dict g ids = Some d ->
-    g_keys_fresh g ids = true -> g_static_nokey g ids = true -> g_static_nocall g = true ->
+    g_keys_fresh g ids = true ->
     topo_eval apply g order = Some rc -> incl order (nodes g) -> In t order ->
     dask_run apply d sched = Some dc -> In (key_of ids o t) sched ->
     dget dc (key_of ids o t) = (rget rc t, [(tfun t, ref_args g (rget rc) t)]).
@@ -28,7 +28,7 @@ Lemma dask_results_sound_stmt :
   forall (apply : positive -> list sval -> sval) (g : tgraph) (ids : task -> positive) (d : dsk) (o : task)
          (order : list task) (rc : cache task sval) (sched : list positive) (dc : cache positive dval),
     output_tasks g = [o] -> as_dask_dict g ids = Some d ->
-    g_keys_fresh g ids = true -> g_static_nokey g ids = true -> g_static_nocall g = true ->
+    g_keys_fresh g ids = true ->
     topo_eval apply g order = Some rc -> incl order (nodes g) -> In o order ->
     dask_run apply d sched = Some dc -> In results sched ->
     fst (dget dc results) = rget rc o.
@@ -37,7 +37,7 @@ Proof. exact dask_results_sound_lemma. Qed.
 Lemma dask_get_sound_stmt :
   forall (apply : positive -> list sval -> sval) (g : tgraph) (ids : task -> positive) (d : dsk) (o : task),
     output_tasks g = [o] -> as_dask_dict g ids = Some d ->
-    g_keys_fresh g ids = true -> g_static_nokey g ids = true -> g_static_nocall g = true ->
+    g_keys_fresh g ids = true ->
     length (topo_order g) = length (nodes g) ->
     exists v, ref_get apply g = ROk v /\ dask_get apply d results = ROk v.
 Proof. exact dask_get_sound_lemma. Qed.
@@ -46,13 +46,13 @@ Lemma execute_sound_stmt :
   forall (apply : positive -> list sval -> sval) (g : tgraph) (ctx : sval) (next : positive) (ids : task -> positive) (o : task),
     let p := exec_prepare g ctx next in
     output_tasks p = [o] ->
-    g_keys_fresh p ids = true -> g_static_nokey p ids = true -> g_static_nocall p = true ->
+    g_keys_fresh p ids = true ->
     length (topo_order p) = length (nodes p) ->
     exists v, ref_get apply p = ROk v /\ execute apply g ctx next ids = ROk v.
 Proof.
-  intros apply g ctx next ids o p Hout Hf Hk Hc Hl.
+  intros apply g ctx next ids o p Hout Hf Hl.
   destruct (as_dask_dict p ids) as [d|] eqn:Ed.
-  - destruct (dask_get_sound_lemma apply p ids d o Hout Ed Hf Hk Hc Hl) as [v [H1 H2]].
+  - destruct (dask_get_sound_lemma apply p ids d o Hout Ed Hf Hl) as [v [H1 H2]].
     exists v. split; [exact H1|]. unfold execute, execute_log. fold p. rewrite Ed. exact H2.
   - unfold as_dask_dict in Ed. rewrite Hout in Ed. discriminate.
 Qed.
@@ -61,7 +61,7 @@ Lemma exactly_once_stmt :
   forall (apply : positive -> list sval -> sval) (g : tgraph) (ids : task -> positive) (d : dsk) (o : task)
          (order : list task) (rc : cache task sval) (sched : list positive) (dc : cache positive dval),
     output_tasks g = [o] -> as_dask_dict g ids = Some d ->
-    g_keys_fresh g ids = true -> g_static_nokey g ids = true -> g_static_nocall g = true ->
+    g_keys_fresh g ids = true ->
     topo_eval apply g order = Some rc -> (forall t, In t order <-> In t (nodes g)) ->
     dask_run apply d sched = Some dc -> (forall k, In k sched <-> In k (dkeys d)) ->
     NoDup sched /\
@@ -199,10 +199,9 @@ Lemma execute_is_declared_evaluation_stmt :
     built g -> uids_below next g = true ->
     output_tasks (workflow_of g) = [o] ->
     g_keys_fresh (exec_prepare g ctx next) ids = true ->
-    g_static_nokey (exec_prepare g ctx next) ids = true -> g_static_nocall (exec_prepare g ctx next) = true ->
     declared_eval apply ctx (workflow_of g) order = Some rc -> (forall t, In t order <-> In t (nodes g)) ->
     execute apply g ctx next ids = ROk (rget rc o).
 Proof.
-  intros apply g ctx next ids o order rc B U Ho Hf Hk Hc Hr Hcov.
-  exact (execute_declared_lemma apply g ctx next B U ids o order rc Ho Hf Hk Hc Hr Hcov).
+  intros apply g ctx next ids o order rc B U Ho Hf Hr Hcov.
+  exact (execute_declared_lemma apply g ctx next B U ids o order rc Ho Hf Hr Hcov).
 Qed.
